@@ -229,6 +229,18 @@ struct LzhDrain : Family {
 		if (threw) {
 			if (!D.capacityError) ctx.fail("C04.equals-reference", "decompressor raised an error (" + what + ") after " + std::to_string(got.size()) + " bytes; the reference decoder decodes the whole input to " + std::to_string(D.out.size()) + " bytes");
 			ctx.count("probe.capacity_error_raised");
+			// "ends in an error at that point instead of continuing": whatever is asked of the decoder (or of a copy of it) after the
+			// capacity error, the bytes delivered in total stay a prefix of what the reference decodes up to that point
+			if (D.capacityError) {
+				for (size_t q = 0; q < 6; ++q) {
+					threw = false; exhausted = false;
+					if (q == 3) callLib(plan, [&] { if constexpr (std::is_copy_constructible<Archive::HuffLZ>::value) { auto c = std::make_unique<Archive::HuffLZ>(*dec); dec = std::move(c); } }, &what);
+					step(pattern[q % pattern.size()]);
+					checkPrefix("after the capacity error was raised");
+				}
+				threw = true;
+				ctx.count("probe.requests_after_capacity_error");
+			}
 		} else {
 			if (D.capacityError) ctx.fail("C04.capacity-error", "input needs more than 65221 symbol updates: the reference decoder stops with a capacity error after " + std::to_string(D.out.size()) + " bytes, the decompressor reported a normal end after " + std::to_string(got.size()));
 			if (!emptyInput && got.size() != D.out.size()) ctx.fail("C04.equals-reference", "decompressor ended after " + std::to_string(got.size()) + " bytes, the reference decoder produces " + std::to_string(D.out.size()));
